@@ -31,7 +31,8 @@ import numpy as _np
 
 GENERATORS = ("gen_dfs", "gen_prim", "gen_wilson", "gen_percolation", "gen_dfs_percolation")
 DEFAULT_P = 0.4  # default of gen_percolation / gen_dfs_percolation (signature)
-EXEC_TIME_LIMIT = 60.0  # seconds for ONE execution of a generator (watchdog against non-terminating modified trees)
+EXEC_TIME_LIMIT = 60.0  # seconds for ONE scripted execution of a generator (watchdog against non-terminating modified trees)
+REAL_TIME_LIMIT = 15.0  # same for a run with the real RNGs (no cap on draws there; the slowest unchanged run, Wilson 20x20, takes ~0.1 s)
 
 
 class Cut(BaseException):
@@ -287,7 +288,7 @@ def call_generator(gen, shape, kwargs, rng):
     grid = _np.array(ex.shape) if gen == "gen_wilson" or kw.pop("_shape_as_array", False) else ex.shape
     kw.pop("_shape_as_array", None)
     try:
-        with time_limit(EXEC_TIME_LIMIT), (installed(rng) if rng is not None else nullcontext()):
+        with time_limit(EXEC_TIME_LIMIT if rng is not None else REAL_TIME_LIMIT), (installed(rng) if rng is not None else nullcontext()):
             ex.maze = fn(grid, **kw)
     except Cut as c:
         ex.cut, ex.cut_total = True, c.total
@@ -511,7 +512,7 @@ def run_job(job):
     except ExecutionTimeout:
         if _TIMEOUTS is not None:
             _TIMEOUTS[GENERATORS.index(gen)] += 1
-        part.errors.append(f"{gen}{shape}{kwargs}: one execution ran longer than {EXEC_TIME_LIMIT:.0f}s (prefix {job.get('prefix')}, seeds {job.get('seeds')}); possible non-termination of the code under check")
+        part.errors.append(f"{gen}{shape}{kwargs}: one execution ran longer than {REAL_TIME_LIMIT if job['kind'] == 'global-seed' else EXEC_TIME_LIMIT:.0f}s (prefix {job.get('prefix')}, seeds {job.get('seeds')}); possible non-termination of the code under check")
     except Exception as e:  # noqa: BLE001 - harness crash
         part.errors.append(f"{gen}{shape}{kwargs}: {type(e).__name__}: {e}\n{traceback.format_exc(limit=6)}")
     part.seconds = time.time() - part.t0
@@ -673,10 +674,10 @@ def plan(checker, tier, seed):
     for sh in prim_shapes:
         for kw in dfs_kwargs_small(*sh):
             ex_jobs.append(enum_job(checker, "gen_prim", sh, kw, split=sh[0] * sh[1] >= 6))
-    prim33_budget = 13 if thorough else None
+    prim33 = [{}, {"start_coord": (2, 2)}, {"do_forks": False}, {"accessible_cells": 4}, {"accessible_cells": 0.5}, {"max_tree_depth": 4}, {"max_tree_depth": 0.5}]
     if thorough:
-        for kw in ({}, {"do_forks": False}, {"accessible_cells": 4}, {"max_tree_depth": 4}):
-            ex_jobs.append(enum_job(checker, "gen_prim", (3, 3), kw, budget=prim33_budget, split=True))
+        for kw in prim33:
+            ex_jobs.append(enum_job(checker, "gen_prim", (3, 3), kw, split=True, want=3000 if not (set(kw) - {"start_coord"}) else 200))
     # --- gen_wilson: infinite tree, cut at a number of draws that have more than one alternative
     wil = {sh: (18 if thorough else 14) for sh in tiny}
     wil.update({sh: (14 if thorough else 11) for sh in mid})
@@ -709,7 +710,7 @@ def plan(checker, tier, seed):
         "EVERY random execution (depth-first walk over all decision scripts of the scripted random source; each draw records its number of alternatives) of: "
         f"gen_dfs on {_fmt(dfs_shapes)} x {len(dfs_kwargs_small(3, 3))} keyword settings (accessible_cells int/float, max_tree_depth int/float, do_forks, start_coord, shape as tuple/ndarray; randomized_stack=True up to 6 cells); "
         f"gen_prim on {_fmt(prim_shapes)} x the same settings"
-        + (f", on 3x3 four settings cut after {prim33_budget} draws with >1 alternative" if thorough else " (3x3 only seeded: its execution tree is too large)")
+        + (f", and every execution on 3x3 for the settings {prim33}" if thorough else " (3x3 only seeded in this tier: ~4.5 million executions with default arguments)")
         + "; gen_wilson (infinite tree) cut after N draws with >1 alternative, N = "
         + ", ".join(f"{r}x{c}:{b}" for (r, c), b in wil.items())
         + " (cut branches are counted, nothing is checked on them); "
